@@ -558,6 +558,8 @@ def rule_copyin(rep: Report, cu: CUnit) -> None:
             init = [c for c in n['inner'] if isinstance(c, dict) and c.get('kind')]
             if init:
                 defs.setdefault(n['name'], []).append(c_ir(init[-1], cu.src_of))
+        elif is_assign(n) and strip(n['inner'][0]).get('kind') == 'DeclRefExpr':
+            defs.setdefault(strip(n['inner'][0])['referencedDecl']['name'], []).append(c_ir(n['inner'][1], cu.src_of))
     # a loop that walks the segment table by pointer names the element `p->f`; it reads as `m.segments[seg].f`
     walkers: Dict[str, str] = {}
     for lp in [x for x in walk(body) if x.get('kind') == 'ForStmt']:
@@ -570,14 +572,50 @@ def rule_copyin(rep: Report, cu: CUnit) -> None:
         return name
     def mm(name: str) -> Optional[Tuple[str, str, str]]:
         vals = defs.get(name, [])
-        r = _minmax(vals[-1]) if vals else None
+        r = next((_minmax(v) for v in vals if _minmax(v)), None)          # (a later clamp assignment is judged separately)
         return (r[0], *sorted((el_(w_(r[1])) or '', el_(w_(r[2])) or ''))) if r else None
-    rep.check(mm('end_clamped') == ('min', 'low_max_end', 'm.segments[seg].end'), 'C07.COPYIN', 'zero-fill clamp',
-              f'end_clamped = {mm("end_clamped")}', cu.site(cu.func(fname)), expected='min(segment end, window end)')
-    rep.check(mm('lo') == ('max', 'm.segments[seg].start', 'page_start'), 'C07.COPYIN', 'copy lo',
-              f'lo = {mm("lo")}', cu.site(cu.func(fname)), expected='max(segment start, page start)')
-    rep.check(mm('hi') == ('min', 'm.segments[seg].end', 'page_end'), 'C07.COPYIN', 'copy hi',
-              f'hi = {mm("hi")}', cu.site(cu.func(fname)), expected='min(segment end, page end)')
+    # the locals that play the roles, found by what the two bulk calls do with them (not by their names):
+    #   memset(FLAT + A, 0, (B - A) * size)  ->  zero_lo = A, zero_hi = B;   memcpy(FLAT + A, PAGE + (A - P), (B - A) * size)  ->  lo, hi, P
+    role = {'zero_lo': 'start', 'zero_hi': 'end_clamped', 'lo': 'lo', 'hi': 'hi', 'page_start': 'page_start', 'page_end': 'page_end'}
+    def through(n: Dict[str, Any]) -> Any:
+        ir = c_ir(n, cu.src_of)
+        for _ in range(3):
+            if ir[0] == 'sym' and len(defs.get(ir[1], [])) == 1:
+                ir = defs[ir[1]][0]
+        return ir
+    for c in [x for x in walk(body) if x.get('kind') == 'CallExpr' and callee(x) in ('memset', 'memcpy')]:
+        a_ = call_args(c)
+        d0, cnt = through(a_[0]), through(a_[2])
+        if d0[0] == 'bin' and d0[1] == '+' and d0[3][0] == 'sym' and cnt[0] == 'bin' and cnt[1] == '*':
+            span = cnt[2] if cnt[2][0] == 'bin' else cnt[3]
+            if span[0] == 'bin' and span[1] == '-' and span[3] == d0[3] and span[2][0] == 'sym':
+                if callee(c) == 'memset':
+                    role['zero_lo'], role['zero_hi'] = d0[3][1], span[2][1]
+                else:
+                    role['lo'], role['hi'] = d0[3][1], span[2][1]
+                    s0 = through(a_[1])
+                    if s0[0] == 'bin' and s0[1] == '+' and s0[3][0] == 'bin' and s0[3][1] == '-' and s0[3][3][0] == 'sym':
+                        role['page_start'] = s0[3][3][1]
+    # the page end: the local defined as page start + PAGE_WORDS
+    for nm, vals in defs.items():
+        if len(vals) == 1 and lx.show(vals[0]).replace(' ', '') in (f'({role["page_start"]}+PAGE_WORDS)', f'({role["page_start"]}+{cu.macro_int("PAGE_WORDS")})'):
+            role['page_end'] = nm
+    # the segment's own bounds may be named by locals (`start = m->segments[seg].start`): read through
+    def seg_(name: Optional[str]) -> Optional[str]:
+        vals = defs.get(name or '', [])
+        if name and len(vals) == 1 and lx.show(vals[0]).startswith('m.segments['):
+            return lx.show(vals[0])
+        return name
+    def mm2(name: str) -> Optional[Tuple[str, str, str]]:
+        r = mm(name)
+        return (r[0], *sorted((el_(seg_(r[1])) or '', el_(seg_(r[2])) or ''))) if r else None
+    PS, PE = role['page_start'], role['page_end']
+    rep.check(mm2(role['zero_hi']) == ('min', 'low_max_end', 'm.segments[seg].end'), 'C07.COPYIN', 'zero-fill clamp',
+              f'{role["zero_hi"]} = {mm2(role["zero_hi"])}', cu.site(cu.func(fname)), expected='min(segment end, window end)')
+    rep.check(mm2(role['lo']) == ('max', *sorted(('m.segments[seg].start', PS))), 'C07.COPYIN', 'copy lo',
+              f'{role["lo"]} = {mm2(role["lo"])}', cu.site(cu.func(fname)), expected='max(segment start, page start)')
+    rep.check(mm2(role['hi']) == ('min', *sorted(('m.segments[seg].end', PE))), 'C07.COPYIN', 'copy hi',
+              f'{role["hi"]} = {mm2(role["hi"])}', cu.site(cu.func(fname)), expected='min(segment end, page end)')
     # guards of memset / memcpy and window clamp of hi
     g = build_c_cfg(cu, fname)
     IN = path_conditions(g, g.entry, c_assigned, c_mentions)
@@ -586,7 +624,7 @@ def rule_copyin(rep: Report, cu: CUnit) -> None:
             continue
         for c in [x for x in walk(node.ast) if x.get('kind') == 'CallExpr' and callee(x) in ('memset', 'memcpy')]:
             conds = {cu.src_of(g.nodes[nid].ast) + ':' + pol for nid, pol in (IN.get(node.id) or frozenset())}
-            need = 'start < end_clamped:T' if callee(c) == 'memset' else 'lo < hi:T'
+            need = f'{role["zero_lo"]} < {role["zero_hi"]}:T' if callee(c) == 'memset' else f'{role["lo"]} < {role["hi"]}:T'
             rep.check(need in conds, 'C07.COPYIN', f'{callee(c)}:guard', f'guards {sorted(conds)[:6]}', cu.site(c, fname),
                       expected=need)
     def _clamp_if(n: Dict[str, Any]) -> bool:
@@ -596,9 +634,10 @@ def rule_copyin(rep: Report, cu: CUnit) -> None:
         if not (t[0] == 'cmp' and len(t[1]) == 1):
             return False
         a, b, op = lx.show(t[2][0]), lx.show(t[2][1]), t[1][0]
-        if not ((op in ('>', '>=') and a == 'hi' and w_(b) == 'low_max_end') or (op in ('<', '<=') and b == 'hi' and w_(a) == 'low_max_end')):
+        HI = role['hi']
+        if not ((op in ('>', '>=') and a == HI and w_(b) == 'low_max_end') or (op in ('<', '<=') and b == HI and w_(a) == 'low_max_end')):
             return False
-        return any(is_assign(x) and lx.show(c_ir(x['inner'][0], cu.src_of)) == 'hi' and w_(lx.show(c_ir(x['inner'][1], cu.src_of))) == 'low_max_end'
+        return any(is_assign(x) and lx.show(c_ir(x['inner'][0], cu.src_of)) == HI and w_(lx.show(c_ir(x['inner'][1], cu.src_of))) == 'low_max_end'
                    for x in walk(n['inner'][1]))
     clamp = any(_clamp_if(n) for n in walk(body))
     rep.check(clamp, 'C07.COPYIN', 'copy hi window clamp', 'if (hi > low_max_end) hi = low_max_end', cu.site(cu.func(fname)))
